@@ -51,6 +51,18 @@ func (s *Syncer) parallelSync(ctx context.Context, cs consensus.State, headers [
 	}
 
 	workFn := func(p *Peer, req Req) (resp Resp) {
+		defer func() {
+			// above the require height every state below derives from the
+			// checkpoint state the peer sent. Consensus code is written for
+			// states derived from validated blocks and may panic on others
+			// (e.g. an overflowing total work), which must not take the node
+			// down
+			if r := recover(); r != nil {
+				err := fmt.Errorf("%w: %v", errInvalidCheckpoint, r)
+				s.ban(p, err)
+				resp = Resp{req: req, peer: p, err: err}
+			}
+		}()
 		resp.req = req
 		resp.peer = p
 		startTime := time.Now()
